@@ -12,13 +12,22 @@
                           that pass is the same colour);
   * `C17_midi_in_*`     : Note Off, or Note On with velocity 0, removes the note from the MIDI-input tracker; Note On with
                           velocity > 0 adds it; the panic action clears the tracker;
+  * `C17_refinement`    : **every LED of every frame** equals the declarative `LedSpec.highlight`: active colour if a key
+                          at a pitch the device is sounding, else the external colour if a MIDI-input note of the current
+                          channel is at its pitch, else the colour of the lowest MIDI-input channel with a note at its pitch,
+                          else its colour in the base frame (proved by "last write wins" over the list of writes);
+  * `C17_pitch_class`   : the base colour of a mapped key's LED is the class colour (C / black / white, or white on the
+                          "Control" mapping) of base note + semitone + 12·octave when that is a MIDI note;
+  * `C17_unavailable`   : and the 'unavailable' colour when it is not, for a key bound to no action;
+  * `C17_external`, `C17_other_channel` : corollaries of the refinement for the MIDI-input highlights;
   * `C17_channel_colours` : the sixteen channel colours (exact table);
   * `C17_source_facts`  : the two facts regenerated from the sources that select the checked behaviour.
 -/
 import HidiProofs.LedLemmas
+import HidiProofs.LedSpec
 import Hidi.Gen.Evdev
 namespace Hidi.Props.C17
-open Hidi Hidi.Led Hidi.LedLemmas Hidi.EngineSim
+open Hidi Hidi.Led Hidi.LedLemmas Hidi.LedSpec Hidi.EngineSim
 
 /-- source facts regenerated from open_rgb.go / events.go: every frame write for action keys and strip LEDs goes through the
     checked setter; a MIDI-input Note On with velocity 0 is treated as Note Off -/
@@ -87,6 +96,175 @@ theorem C17_active (d : Dev) (devName : String) (leds : List String) (shifted : 
       d.noteTr [] _ hg
   refine ⟨l, e1, ?_⟩
   exact hs i (g3 held hheld code hcode i hi) (indexMap_lt leds code i hi)
+
+
+/-! ### refinement to a per-LED specification -/
+
+/-- **refinement**: every LED of the frame shows `highlight` of its base colour — for every state, layout and mapping -/
+theorem C17_refinement (d : Dev) (devName : String) (leds : List String) (shifted : RGB × RGB × RGB) (m : Mapping)
+    (hm : d.curMap = some m) :
+    ∃ base l, frameBase true d devName leds shifted m = .ok base ∧ frame true d devName leds shifted = .ok l ∧
+      base.length = leds.length ∧ l.length = leds.length ∧
+      ∀ i (hi : i < base.length), l[i]? = some (highlight d leds m base[i] i) := by
+  obtain ⟨base, hb, hlen⟩ := frameBase_isOk d devName leds shifted m
+  obtain ⟨l, hl, hll, hs⟩ := frame_highlight d devName leds shifted m hm base hb hlen
+  exact ⟨base, l, hb, hl, hlen, hll, hs⟩
+
+/-- nothing is highlighted on LED `i` -/
+def Unlit (d : Dev) (leds : List String) (m : Mapping) (i : Nat) : Prop :=
+  lit (indexMap leds) m (fun (p : Code × (Nat × Nat)) => baseOf p.2.1 (d.semitone + d.octave * 12)) d.noteTr i = false ∧
+  ∀ ch, lit (indexMap leds) m (fun (p : Nat × Nat) => baseOf p.2 (d.semitone + d.octave * 12))
+    (d.ext.filter (fun p => p.1 = ch)) i = false
+
+theorem highlight_unlit (d : Dev) (leds : List String) (m : Mapping) (base : RGB) (i : Nat) (h : Unlit d leds m i) :
+    highlight d leds m base i = base := by
+  unfold highlight
+  simp only [h.1, h.2 d.channel]
+  have : (List.range 16).find? (fun ch => lit (indexMap leds) m (fun (p : Nat × Nat) => baseOf p.2 (d.semitone + d.octave * 12))
+      (d.ext.filter (fun p => p.1 = ch)) i) = none := by
+    apply List.find?_eq_none.mpr
+    intro ch _; simp [h.2 ch]
+  simp [this]
+
+/-- **pitch class**: a mapped key with an LED, nothing sounding at its pitch, whose transposed note is a MIDI note, shows
+    the class colour of that note -/
+theorem C17_pitch_class (d : Dev) (devName : String) (leds : List String) (shifted : RGB × RGB × RGB) (m : Mapping)
+    (hm : d.curMap = some m) (hnd : (akeys m.midi).Nodup) (p : (Sub × Code) × Key) (hp : p ∈ m.midi) (hsub : p.1.1 = "")
+    (i : Nat) (hi : alookup p.1.2 (indexMap leds) = some i) (hun : Unlit d leds m i)
+    (hlo : 0 ≤ (p.2.note : Int) + (d.semitone + d.octave * 12)) (hhi : (p.2.note : Int) + (d.semitone + d.octave * 12) ≤ 127) :
+    ∃ l, frame true d devName leds shifted = .ok l ∧
+      l[i]? = some (classColor m shifted ((p.2.note : Int) + (d.semitone + d.octave * 12)).toNat) := by
+  obtain ⟨base, l, hb, hl, hlen, -, hs⟩ := C17_refinement d devName leds shifted m hm
+  obtain ⟨pre, base', -, hb', -, -, hbi⟩ := frameBase_key d devName leds shifted m hnd p hp hsub i hi
+  rw [hb] at hb'; cases hb'
+  have hil : i < base.length := hlen ▸ indexMap_lt leds _ i hi
+  refine ⟨l, hl, ?_⟩
+  rw [hs i hil, highlight_unlit d leds m _ i hun]
+  have hc : ¬ ((p.2.note : Int) + (d.semitone + d.octave * 12) < 0 ∨ (p.2.note : Int) + (d.semitone + d.octave * 12) > 127) := by
+    omega
+  simp only [hc, if_false] at hbi
+  rw [List.getElem?_eq_getElem hil] at hbi
+  exact hbi
+
+/-- **unavailable**: the same key when its transposed note is outside 0‥127, if it is bound to no action: the
+    'unavailable' colour -/
+theorem C17_unavailable (d : Dev) (devName : String) (leds : List String) (shifted : RGB × RGB × RGB) (m : Mapping)
+    (hm : d.curMap = some m) (hnd : (akeys m.midi).Nodup) (p : (Sub × Code) × Key) (hp : p ∈ m.midi) (hsub : p.1.1 = "")
+    (i : Nat) (hi : alookup p.1.2 (indexMap leds) = some i) (hun : Unlit d leds m i)
+    (hout : (p.2.note : Int) + (d.semitone + d.octave * 12) < 0 ∨ (p.2.note : Int) + (d.semitone + d.octave * 12) > 127)
+    (hact : ∀ a, actionCode d.cfg a ≠ some p.1.2) :
+    ∃ l, frame true d devName leds shifted = .ok l ∧ l[i]? = some d.cfg.colors.unavailable := by
+  obtain ⟨base, l, hb, hl, hlen, -, hs⟩ := C17_refinement d devName leds shifted m hm
+  obtain ⟨pre, base', hpre, hb', hplen, -, hbi⟩ := frameBase_key d devName leds shifted m hnd p hp hsub i hi
+  rw [hb] at hb'; cases hb'
+  have hil : i < base.length := hlen ▸ indexMap_lt leds _ i hi
+  have hil' : i < leds.length := indexMap_lt leds _ i hi
+  refine ⟨l, hl, ?_⟩
+  rw [hs i hil, highlight_unlit d leds m _ i hun]
+  simp only [hout, if_true] at hbi
+  rw [List.getElem?_eq_getElem hil] at hbi
+  rw [hbi]
+  -- the pre-frame shows 'unavailable' there
+  obtain ⟨name, hname, hkey⟩ := indexMap_spec leds _ i hi
+  have hk := framePre_unavailable d devName leds i hil' ?_ ?_
+  · obtain ⟨pre', e, -, hv⟩ := hk
+    rw [hpre] at e; cases e
+    have : i < pre.length := by omega
+    rw [List.getElem?_eq_getElem this] at hv
+    simp only [Option.some.injEq] at hv
+    simp [this, hv]
+  · intro sname hs' e
+    rw [hname] at e
+    simp only [Option.some.injEq] at e; subst e
+    -- a strip LED name is not a key LED name
+    unfold stripLeds at hs'
+    split at hs'
+    · simp only [List.mem_map, List.mem_range] at hs'
+      obtain ⟨k, hk, rfl⟩ := hs'
+      have : ∀ k < 18, ledKey s!"RGB Strip {k + 1}" = none := by decide
+      rw [this k hk] at hkey; cases hkey
+    · cases hs'
+  · intro a code ha hc
+    have := indexMap_inj leds _ _ _ hc hi
+    subst this
+    exact hact a ha
+
+/-- **external colour**: a key at the pitch of a MIDI-input note on the current channel, with no own note sounding at its
+    pitch, shows the external colour -/
+theorem C17_external (d : Dev) (devName : String) (leds : List String) (shifted : RGB × RGB × RGB) (m : Mapping)
+    (hm : d.curMap = some m) (i : Nat) (hi : i < leds.length)
+    (hown : lit (indexMap leds) m (fun (p : Code × (Nat × Nat)) => baseOf p.2.1 (d.semitone + d.octave * 12)) d.noteTr i = false)
+    (hext : lit (indexMap leds) m (fun (p : Nat × Nat) => baseOf p.2 (d.semitone + d.octave * 12))
+      (d.ext.filter (fun p => p.1 = d.channel)) i = true) :
+    ∃ l, frame true d devName leds shifted = .ok l ∧ l[i]? = some d.cfg.colors.activeExternal := by
+  obtain ⟨base, l, -, hl, hlen, -, hs⟩ := C17_refinement d devName leds shifted m hm
+  refine ⟨l, hl, ?_⟩
+  rw [hs i (by omega)]
+  unfold highlight
+  simp [hown, hext]
+
+/-- **other channels**: with nothing of the device's own or of the current channel at its pitch, the LED shows the colour of
+    the lowest MIDI-input channel that has a note there -/
+theorem C17_other_channel (d : Dev) (devName : String) (leds : List String) (shifted : RGB × RGB × RGB) (m : Mapping)
+    (hm : d.curMap = some m) (i : Nat) (hi : i < leds.length)
+    (hown : lit (indexMap leds) m (fun (p : Code × (Nat × Nat)) => baseOf p.2.1 (d.semitone + d.octave * 12)) d.noteTr i = false)
+    (hcur : lit (indexMap leds) m (fun (p : Nat × Nat) => baseOf p.2 (d.semitone + d.octave * 12))
+      (d.ext.filter (fun p => p.1 = d.channel)) i = false)
+    (ch : Nat) (hch : ch < 16)
+    (hlit : lit (indexMap leds) m (fun (p : Nat × Nat) => baseOf p.2 (d.semitone + d.octave * 12))
+      (d.ext.filter (fun p => p.1 = ch)) i = true)
+    (hmin : ∀ c < ch, lit (indexMap leds) m (fun (p : Nat × Nat) => baseOf p.2 (d.semitone + d.octave * 12))
+      (d.ext.filter (fun p => p.1 = c)) i = false) :
+    ∃ l, frame true d devName leds shifted = .ok l ∧ l[i]? = some (chanColor ch) := by
+  obtain ⟨base, l, -, hl, hlen, -, hs⟩ := C17_refinement d devName leds shifted m hm
+  refine ⟨l, hl, ?_⟩
+  rw [hs i (by omega)]
+  unfold highlight
+  simp only [hown, hcur]
+  have : (List.range 16).find? (fun c => lit (indexMap leds) m (fun (p : Nat × Nat) => baseOf p.2 (d.semitone + d.octave * 12))
+      (d.ext.filter (fun p => p.1 = c)) i) = some ch := by
+    rw [List.find?_eq_some_iff_append]
+    refine ⟨hlit, List.range ch, (List.range (16 - ch - 1)).map (· + (ch + 1)), ?_, ?_⟩
+    · have : 16 = ch + (1 + (16 - ch - 1)) := by omega
+      conv => lhs; rw [this, List.range_add, List.range_add]
+      simp
+      intro a _; omega
+    · intro c hc
+      have := List.mem_range.mp hc
+      simp [hmin c this]
+  simp [this]
+
+
+/-! ### non-vacuity: a concrete layout (three LEDs in an order different from the key codes), a held key, MIDI-input
+    notes on the current channel and on two other channels -/
+
+def exM : Mapping :=
+  { name := "Piano", midi := [(("", 30), ⟨60, 0⟩), (("", 31), ⟨61, 0⟩), (("", 32), ⟨62, 0⟩), (("", 33), ⟨120, 0⟩)],
+    analog := [], dz := [], defDz := [] }
+def exC : Config :=
+  { maps := [exM], actions := [(59, .octaveUp)], exitSeq := [], mode := .off, defOct := 0, defSemi := 0, defCh := 1,
+    defMap := 0, vel := 64, axes := [],
+    colors := { unavailable := ⟨9, 9, 9⟩, active := ⟨0, 255, 0⟩, activeExternal := ⟨0, 0, 255⟩ } }
+def exLeds : List String := ["Key: S", "Key: A", "Key: F1", "Key: D", "Logo", "Key: F"]
+def exShift : RGB × RGB × RGB := (⟨1, 1, 1⟩, ⟨2, 2, 2⟩, ⟨3, 3, 3⟩)
+/-- key S held; MIDI input: note 60 on the current channel, 62 on channels 4 and 3; octave raised by one (key F1 pressed
+    and released), so base note 120 is out of range -/
+def exD : Dev :=
+  ((Dev.init exC).runFlat [.key "" 59 1, .key "" 59 0, .key "" 31 1, .midiIn 0x90 72 100, .midiIn 0x93 74 100,
+    .midiIn 0x92 74 100]).1
+
+example : exD.curMap = some exM ∧ (akeys exM.midi).Nodup ∧ exD.octave = 1 := ⟨by rfl, by decide, by decide⟩
+/-- S active, A external, F1 (octave up, one step) white2, D channel 3's colour (the lower of 4 and 3), an LED without a
+    key untouched, F unavailable (120 + 12 > 127) -/
+example : frame true exD "kbd" exLeds exShift =
+    .ok [⟨0, 255, 0⟩, ⟨0, 0, 255⟩, white2, chanColor 2, ⟨9, 9, 9⟩, ⟨9, 9, 9⟩] := by decide
+example : Unlit (Dev.init exC) exLeds exM 1 := by
+  refine ⟨by decide, ?_⟩
+  intro ch; simp [Dev.init, lit]
+/-- the hypotheses of `C17_pitch_class` hold for key A on the fresh device: its LED shows the C colour -/
+example : ∃ l, frame true (Dev.init exC) "kbd" exLeds exShift = .ok l ∧ l[1]? = some ⟨3, 3, 3⟩ :=
+  C17_pitch_class (Dev.init exC) "kbd" exLeds exShift exM (by rfl) (by decide) (("", 30), ⟨60, 0⟩) (by decide) rfl 1
+    (by decide) (by refine ⟨by decide, ?_⟩; intro ch; simp [Dev.init, lit]) (by decide) (by decide)
 
 /-! ### the MIDI-input tracker -/
 
